@@ -16,7 +16,7 @@ for f in sorted(os.listdir(d)):
                 alarms.append(f"{pr} {rule}: {key}")
         elif ln.strip() and not ln.startswith("C"):
             notes.append(ln.strip()[:160])
-        elif re.match(r"C\d+ (UNDECIDED|LOAD ERROR|ANALYSIS-FAILED|panic|goroutine )", ln):
+        elif re.match(r"C\d+ (UNDECIDED|LOAD ERROR|ANALYSIS-FAILED|CHECKER-PROBLEM|panic|goroutine )", ln):
             alarms.append(ln.strip()[:200])
     print(f"{f[:-4]:12} {'clean' if not alarms and not notes else ''}")
     for n in notes[:3]:
